@@ -1235,7 +1235,7 @@ run_task(_task_t t)
 static __attribute__((pure, const)) ev_tstamp
 instant_to_tstamp(echs_instant_t i)
 {
-/* this way around it's easier, date range supported is 2001 to 2099
+/* this way around it's easier, date range supported is 1901 to 2099
  * (i.e. with no bullshit leap years) */
 	static uint16_t __mon_yday[] = {
 		/* this is \sum ml,
@@ -1244,22 +1244,22 @@ instant_to_tstamp(echs_instant_t i)
 		31, 59, 90, 120, 151, 181,
 		212, 243, 273, 304, 334, 365
 	};
-	unsigned int nd = 0U;
+	int nd = 0;
 	time_t t;
 
 	/* days from 2001-01-01 till day 0 of current year,
-	 * i.e. i.y-01-00 */
-	nd += 365U * (i.y - 2001U) + (i.y - 2001U) / 4U;
+	 * i.e. i.y-01-00, negative for the years before */
+	nd += 365 * ((int)i.y - 2001) + ((int)i.y - 1) / 4 - 500;
 	/* day-of-year */
 	nd += __mon_yday[i.m] + i.d + UNLIKELY(!(i.y % 4U) && i.m >= 3);
 
 	if (LIKELY(!echs_instant_all_day_p(i))) {
-		t = (((time_t)nd * 24U + i.H) * 60U + i.M) * 60U + i.S;
+		t = (((time_t)nd * 24 + i.H) * 60 + i.M) * 60 + i.S;
 	} else {
-		t = (time_t)nd * 86400UL;
+		t = (time_t)nd * 86400L;
 	}
 	/* calc number of seconds since unix epoch */
-	t += 11322/*days from unix epoch to our epoch*/ * 86400UL;
+	t += 11322/*days from unix epoch to our epoch*/ * 86400L;
 	return (double)t;
 }
 
